@@ -436,7 +436,7 @@ def run_cli(case, want):
 SEQ_STEPS = ['classify-A', 'classify-B', 'grid-1', 'recession', 'rise']
 
 
-def sequence_space(depth):
+def sequence_space(depth, dataset=0):
     """Every sequence of up to `depth` workflow steps with TWO different
     classify commands: whatever thresholds the dataset records, the recorded
     classification must be the one for those thresholds"""
@@ -454,15 +454,14 @@ def sequence_space(depth):
         for _ in range(k):
             seq.append(SEQ_STEPS[i % n])
             i //= n
-        return {'kind': 'sequence', 'steps': seq[::-1]}
-    return Space('step sequences up to length %d over %r' % (depth,
-                                                             SEQ_STEPS),
-                 sum(sizes), decode)
+        return {'kind': 'sequence', 'steps': seq[::-1], 'dataset': dataset}
+    return Space('step sequences up to length %d over %r from dataset %d'
+                 % (depth, SEQ_STEPS, dataset), sum(sizes), decode)
 
 
 def run_sequence(case, want):
     from mc.checks import c13
-    blob = c13.state_after(case['steps'])
+    blob = c13.state_after(case['steps'], case.get('dataset') or 0)
     connection = sqlite3.connect(':memory:')
     connection.deserialize(blob)
     viol = {p: [] for p in want}
